@@ -3,7 +3,7 @@ import os, re, json, string
 from .. import env, cli, histgen, session, wire
 from ..runner import Prop, Stage, Result
 
-PROFILE = dict(reuse=0.6, weights=dict(delete=14, bind=14, message=46, server_event=8, sync=6, enum=6, title=6))
+PROFILE = dict(reuse=0.6, weights=dict(newer=4, delete=14, bind=14, message=46, server_event=8, sync=6, enum=6, title=6))
 MATCHER_ALPHA = '[]()!,.:=@#"*~ \t-_'
 WORDS = ['wl_surface', 'wl_*', 'commit', 'new', 'destroyed', 'nil', '5', '5a', '12B', 'A', 'B', 'x', '0', '1.5', '-1', 'inf', 'nan', '1e999', 'é', 'ß3', '3é', '@', 'unknown',
          '99999999999999999999', '0x10', 'name', 'id', '"s"', '""', "'", 'Ａ', '٣', '²']
